@@ -5,6 +5,7 @@ import Pcore.Model.Lockset
 import Pcore.Generated.Locksets
 import Pcore.Model.LazyCache
 import Pcore.Generated.CacheSites
+import Pcore.Model.InstantiateOnce
 /-! Driver op for C13: `sched (tree NODE*) (threads (th STEP*)…) (sched T*)` — syntax and output in harness/c13/c13.go. -/
 namespace C13
 open Sx Pcore.LoaderSeq Pcore.LoaderConc
@@ -77,8 +78,39 @@ def cacheExec (v : Sexp) (ths sch : List Sexp) : String :=
     " ".intercalate (go 0 c.th)
   | _, _, _ => "bad-op"
 
+/-! `files (files xN*) (threads (th (load xN)*)…) (sched T*)` — harness/c13/files.go -/
+def letterOf (e : Sexp) : Option Char :=
+  match e.bytes? with
+  | some [b] =>
+    let c := Char.ofNat b.toNat
+    if ('a' ≤ c ∧ c ≤ 'z') ∨ ('A' ≤ c ∧ c ≤ 'Z') then some c else none
+  | _ => none
+
+def typeKey (c : Char) : Key := canon { auth := runtimeAuthority, ns := "type", name := String.singleton c }
+
+def filesExec (fs ths sch : List Sexp) : String :=
+  match fs.mapM letterOf, ths.mapM (fun t => match t with
+      | .list (.atom "th" :: ops) => ops.mapM fun o => match o with
+        | .list [.atom "load", x] => (letterOf x).map typeKey
+        | _ => none
+      | _ => none), sch.mapM Sexp.nat? with
+  | some letters, some (p :: progs), some sched =>
+    let lows := letters.map lowerChar
+    if lows.eraseDups.length != lows.length then "bad-op"
+    else
+      let files := (lows.zip (List.range lows.length)).map fun (c, i) =>
+        (typeKey c, V.al (String.singleton c.toUpper) (i + 1))
+      let c := Pcore.Instantiate.execute files (p :: progs) sched
+      let rec go (i : Nat) : List Pcore.Instantiate.Thread → List String
+        | [] => []
+        | t :: r => s!"{i}:[{" ; ".intercalate (t.log.map C12.ansStr)}]" :: go (i + 1) r
+      " ".intercalate (go 0 c.th) ++ " | reads" ++
+        String.join (lows.map fun ch => s!" {hexOfString (String.singleton ch)}={c.reads.count (typeKey ch)}")
+  | _, _, _ => "bad-op"
+
 def exec : List Sexp → String
   | [.atom "lockrace"] => lockrace
+  | [.atom "files", .list (.atom "files" :: fs), .list (.atom "threads" :: ths), .list (.atom "sched" :: sch)] => filesExec fs ths sch
   | [.atom "cache", .list [.atom "val", v], .list (.atom "threads" :: ths), .list (.atom "sched" :: sch)] => cacheExec v ths sch
   | [.atom "sched", .list (.atom "tree" :: nodes), .list (.atom "threads" :: ths), .list (.atom "sched" :: sch)] =>
     match C12.treeOf nodes with
